@@ -1286,7 +1286,9 @@ func (w *responseWriter) close() {
 		w.WriteHeader(http.StatusOK)
 	}
 	if w.w != nil {
-		_, _ = w.w.Write(nil) // trigger any final writes
+		if !w.endWritten {
+			_, _ = w.w.Write(nil) // trigger any final writes
+		}
 		_ = w.w.Close()
 	}
 	if w.endWritten {
@@ -1459,7 +1461,7 @@ func (w *envelopingWriter) Close() error {
 		}
 		defer w.rw.op.bufferPool.Put(buf)
 	}
-	if w.remainingBytes == -1 && w.mustReleaseCurrent && w.err == nil {
+	if w.remainingBytes == -1 && w.mustReleaseCurrent && w.err == nil && !w.rw.endWritten {
 		length := buf.Len()
 		if limit := int(w.rw.op.methodConf.maxMsgBufferBytes); length > limit {
 			w.err = bufferLimitError(int64(limit))
@@ -1657,7 +1659,9 @@ func (w *transformingWriter) Write(data []byte) (n int, err error) {
 }
 
 func (w *transformingWriter) Close() error {
-	if w.expectingBytes == -1 {
+	if w.rw.endWritten {
+		// The RPC has already ended (e.g. with an error): drop buffered data.
+	} else if w.expectingBytes == -1 {
 		if err := w.flushMessage(); err != nil {
 			w.rw.reportError(err)
 		}
